@@ -7,7 +7,8 @@
 (*   Deq      takes the head of the datagram queue (FIFO, nothing invented)    *)
 (*   Mar      the encoded message is the worker's OWN datagram's (PublishedIs- *)
 (*            Own at the moment of encoding)                                   *)
-(*   Top      after an encoded message: it has been queued for the producer    *)
+(*   Top      after an encoded message: it has been queued for the producer,   *)
+(*            or dropped when the producer is MqCap messages behind            *)
 (*   Consume  what the producer takes is, NOW, still the message of the        *)
 (*            datagram that was queued (QueuedIsCopy), in queue order          *)
 (*   Probe    no buffer the pool hands out is still held: queued but not       *)
@@ -21,6 +22,7 @@
 (*            ExactlyOnceIfData, NoPhantom)                                    *)
 EXTENDS Integers, Sequences, FiniteSets, TLC, Json
 Trace == ndJsonDeserialize("trace.ndjson")
+MqCap == 1000      \* capacity of the producer queues (vflow/*.go: make(chan []byte, 1000))
 VARIABLES l, q, wk, mq, consumed, decs, expect
 tvars == <<l, q, wk, mq, consumed, decs, expect>>
 Ev == Trace[l]
@@ -50,10 +52,13 @@ TMar == /\ Is("Mar") /\ W(Ev.w).gate = "Dec" /\ W(Ev.w).d = F(Ev, "d", 0)
         /\ Ev.p = W(Ev.w).d /\ Ev.p > 0
         /\ wk' = Put(wk, Ev.w, [W(Ev.w) EXCEPT !.gate = "Mar", !.p = Ev.p]) /\ expect' = expect \cup {Ev.p}
         /\ UNCHANGED <<q, mq, consumed, decs>>
+(* the message goes on the producer's queue - or nowhere when that queue is full (MqCap messages behind): dropped, *)
+(* never kept for later, never put anywhere else                                                                  *)
 TTop == /\ Is("Top")
-        /\ mq' = IF W(Ev.w).gate = "Mar" THEN Append(mq, W(Ev.w).p) ELSE mq
+        /\ mq' = IF W(Ev.w).gate = "Mar" /\ Len(mq) < MqCap THEN Append(mq, W(Ev.w).p) ELSE mq
+        /\ expect' = IF W(Ev.w).gate = "Mar" /\ Len(mq) >= MqCap THEN expect \ {W(Ev.w).p} ELSE expect
         /\ wk' = Put(wk, Ev.w, [gate |-> "Top", d |-> 0, b |-> 0, p |-> 0])
-        /\ UNCHANGED <<q, consumed, decs, expect>>
+        /\ UNCHANGED <<q, consumed, decs>>
 TConsume == /\ Is("Consume") /\ mq # <<>> /\ Ev.p = Head(mq)
             /\ mq' = Tail(mq) /\ consumed' = Append(consumed, Ev.p)
             /\ UNCHANGED <<q, wk, decs, expect>>
@@ -63,7 +68,7 @@ TProbe == /\ Is("Probe") /\ {Ev.got[i] : i \in 1..Len(Ev.got)} \cap Held = {}
 TMirOut == /\ Is("MirOut") /\ F(Ev, "n", 0) = 1 /\ Ev.b \notin Held
            /\ UNCHANGED <<q, wk, mq, consumed, decs, expect>>
 TEnd == /\ Is("End") /\ F(Ev, "n", 0) = decs /\ mq = <<>> /\ q = <<>>
-        /\ \A a, c \in 1..Len(consumed) : a # c => consumed[a] # consumed[c]
+        /\ Cardinality({consumed[a] : a \in 1..Len(consumed)}) = Len(consumed)       \* no message twice
         /\ {consumed[a] : a \in 1..Len(consumed)} = expect
         /\ UNCHANGED <<q, wk, mq, consumed, decs, expect>>
 (* dynamic workers: a worker told to quit leaves at its select, never with a datagram in hand *)
